@@ -198,6 +198,26 @@ func scenarios() []scenario {
 	// preemption-bounded exploration above that
 	l = append(l, mkScenario(2, 2, S(2, 0)), mkScenario(2, 2, S(2, 1)), mkScenario(2, 3, P(2), P(2)), mkScenario(2, 3, S(1, 0), P(2)),
 		mkScenario(2, 3, P(2), S(1, 1)), mkScenario(2, 2, S(2, 0), S(1, 0)), mkScenario(3, 2, P(3)), mkScenario(3, 1, S(2, 1)), mkScenario(3, 3, P(2)), mkScenario(3, 2, S(1, 0)), mkScenario(3, 1, S(1, 0), P(1)))
+	// size sweep: one batch of k tasks at sizes around powers of two and around the sizes the library uses (80, 128),
+	// every schedule with at most one preemption - a code path taken only from some batch size on (chunked hand-out,
+	// another counter) is invisible to the small configurations above
+	// (the number of schedules with one preemption grows with the square of the batch size: sizes up to 33 here, sizes
+	// up to 260 in the thorough tier; thresholds behind larger sizes are probed by the free-running large-size bodies,
+	// whose last tasks are slow - see large.go.)
+	for _, k := range []int{7, 8, 9} {
+		l = append(l, mkScenario(1, 1, P(k)), mkScenario(2, 1, P(k)))
+	}
+	for _, k := range []int{17, 31, 33} {
+		l = append(l, mkScenario(1, 1, P(k)))
+	}
+	if vkit.Thorough() {
+		for _, k := range []int{15, 16, 17, 31, 33} {
+			l = append(l, mkScenario(2, 1, P(k)))
+		}
+		for _, k := range []int{63, 64, 65, 80, 128, 129, 256, 257, 260} {
+			l = append(l, mkScenario(1, 1, P(k)))
+		}
+	}
 	if vkit.Thorough() {
 		l = append(l, mkScenario(2, -1, S(1, 1)), mkScenario(2, -1, P(3)), mkScenario(2, -1, P(2), P(2)), mkScenario(3, -1, P(2)), mkScenario(2, 4, S(2, 0)), mkScenario(2, 3, S(2, 1)),
 			mkScenario(3, 3, P(3)), mkScenario(3, 2, P(2), P(1)), mkScenario(3, 2, S(2, 1)), mkScenario(2, 3, S(2, 0), S(1, 0)), mkScenario(2, 3, P(1), S(1, 0), P(1)),
